@@ -151,6 +151,8 @@ pub fn g_bytes(long_weight: u32) -> BoxedStrategy<(Vec<u8>, &'static str)> {
         long_weight => g_b256_boundary().prop_map(|v| (v, "b256-length-boundary")),
         2 => g_homogeneous(300).prop_map(|v| (v, "len41-300")),
         3 => g_segments(true).prop_map(|v| (v, "eod-shaped")),
+        2 => g_alternating().prop_map(|v| (v, "len9-40")),
+        2 => g_tokens().prop_map(|v| (v, "len9-40")),
     ]
     .boxed()
 }
@@ -167,6 +169,10 @@ pub fn g_segments(allow_long: bool) -> impl Strategy<Value = Vec<u8>> {
         for (c, l, seed) in segs {
             let class = [0usize, 1, 2, 3, 5, 8, 5, 8, 1, 0][pick(c, 10)];
             let len = match class {
+                0 if allow_long && !long_used && l % 16 == 3 => {
+                    long_used = true;
+                    [254usize, 255, 256, 257, 300, 510, 512, 513][pick(l.rotate_left(5), 8)]
+                }
                 0 => [1usize, 2, 3, 4, 5, 6, 7, 8, 9, 10, 11, 12][pick(l, 12)],
                 1 | 2 | 3 => [2usize, 3, 4, 5, 6, 7, 8, 9, 10, 12, 13, 15][pick(l, 12)],
                 5 => [3usize, 4, 5, 7, 8, 9, 11, 12, 13, 16, 20, 32][pick(l, 12)],
@@ -192,6 +198,63 @@ pub fn g_segments(allow_long: bool) -> impl Strategy<Value = Vec<u8>> {
     })
 }
 
+/// Eight to sixteen short segments alternating between two character classes (each typically carried by
+/// a different mode): plans with many switches.
+pub fn g_alternating() -> impl Strategy<Value = Vec<u8>> {
+    (any::<u16>(), any::<u16>(), 8usize..=16, vec((1usize..=5, any::<u64>()), 16)).prop_map(|(a, b, n, segs)| {
+        let ca = [3usize, 5, 1, 2, 0, 8][pick(a, 6)];
+        let mut cb = [5usize, 3, 2, 1, 8, 0][pick(b, 6)];
+        if cb == ca {
+            cb = (ca + 1) % 9;
+        }
+        let mut v = Vec::new();
+        for (i, (len, seed)) in segs.iter().enumerate().take(n) {
+            let r = expand(*seed, *len);
+            // X12 segments in whole triples, EDIFACT ones in whole quads half of the time
+            let class = if i % 2 == 0 { ca } else { cb };
+            let l = if class == 3 { 3 * ((*len + 2) / 3) } else { *len };
+            v.extend((0..l).map(|k| class_char(class, r[k % r.len()].wrapping_add(k as u8))));
+        }
+        v
+    })
+}
+
+/// Well-known byte sequences that software likes to treat specially, placed at the start, the end or in the
+/// middle of ordinary data: byte order marks, AIM symbology identifiers, line terminators, the macro header
+/// and trailer, NUL.
+pub const TOKENS: [&[u8]; 22] = [
+    b"\xEF\xBB\xBF", b"\xFF\xFE", b"\xFE\xFF", b"]d1", b"]d2", b"]d3", b"]C1", b"]e0", b"]Q3", b"\r\n", b"\n", b"\r", b"\0", b"\x1d", b"\x1e\x04", b"[)>\x1e05\x1d", b"[)>\x1e06\x1d", b"[)>\x1e", b"\x04", b"01", b"http://", b"\x7f",
+];
+
+pub fn g_tokens() -> impl Strategy<Value = Vec<u8>> {
+    (vec(any::<u16>(), 1..=2), g_bytes_len(0, 3, 6, 24), any::<u8>()).prop_map(|(ts, body, k)| {
+        let t0 = TOKENS[pick(ts[0], TOKENS.len())];
+        let mut v = Vec::new();
+        match k % 4 {
+            0 => {
+                v.extend_from_slice(t0);
+                v.extend_from_slice(&body);
+            }
+            1 => {
+                v.extend_from_slice(&body);
+                v.extend_from_slice(t0);
+            }
+            2 => {
+                let m = body.len() / 2;
+                v.extend_from_slice(&body[..m]);
+                v.extend_from_slice(t0);
+                v.extend_from_slice(&body[m..]);
+            }
+            _ => {
+                v.extend_from_slice(t0);
+                v.extend_from_slice(&body);
+                v.extend_from_slice(TOKENS[pick(*ts.last().unwrap(), TOKENS.len())]);
+            }
+        }
+        v
+    })
+}
+
 /// one character class only (digits, upper case, ..., high bytes), any length up to `max`: the inputs on
 /// which a single mode is optimal from the first to the last character
 pub fn g_homogeneous(max: usize) -> impl Strategy<Value = Vec<u8>> {
@@ -211,6 +274,8 @@ pub fn g_bytes_short() -> BoxedStrategy<(Vec<u8>, &'static str)> {
         4 => g_eod().prop_map(|v| (v, "eod-shaped")),
         2 => g_homogeneous(100).prop_map(|v| (v, "len41-120")),
         3 => g_segments(false).prop_map(|v| (v, "eod-shaped")),
+        1 => g_alternating().prop_map(|v| (v, "len9-40")),
+        1 => g_tokens().prop_map(|v| (v, "len9-40")),
         1 => g_b256_boundary().prop_filter_map("short variants only", |v| if v.len() < 300 { Some((v, "b256-length-boundary")) } else { None }),
     ]
     .boxed()
@@ -230,7 +295,25 @@ pub fn g_macro() -> BoxedStrategy<(Vec<u8>, &'static str)> {
         .prop_map(|(k, six, body, extra)| {
             let head = if six { HEAD06 } else { HEAD05 };
             let mut v = Vec::new();
-            let stratum = match pick(k, 10) {
+            let stratum = match pick(k, 12) {
+                10 | 11 => {
+                    // a complete envelope with a few extra bytes in front of it or behind it (line
+                    // terminators, controls): looks like the envelope, is not one
+                    let junk: &[u8] = [&b"\r\n"[..], b"\n", b"\r", b" ", b"\0", b"\x04", b"\x1e", b"\x1e\x04", b"\t", b"A"][(extra % 10) as usize];
+                    if pick(k, 12) == 10 {
+                        v.extend_from_slice(head);
+                        v.extend_from_slice(&body);
+                        v.extend_from_slice(TRAIL);
+                        v.extend_from_slice(junk);
+                        "macro-envelope-plus-tail"
+                    } else {
+                        v.extend_from_slice(junk);
+                        v.extend_from_slice(head);
+                        v.extend_from_slice(&body);
+                        v.extend_from_slice(TRAIL);
+                        "macro-prefix-plus-envelope"
+                    }
+                }
                 8 => {
                     // an envelope whose body starts with the (other or same) header again
                     v.extend_from_slice(head);
